@@ -11,6 +11,7 @@ import (
 	"strings"
 
 	"github.com/rulego/streamsql/functions"
+	"verifharness/internal/gen"
 )
 
 // fnSpec describes one deterministic built-in scalar function for the generator and the oracle.
@@ -154,7 +155,36 @@ var fnTable = []*fnSpec{
 		}
 		return ""
 	}},
-	{name: "round", args: []string{"n", "k"}, ret: "n"},
+	// round(x, d): differential as well, plus laws that hold for every half-way convention a function could document:
+	// the result is x rounded at the d-th decimal (within half a unit of that place), round(-x, d) = -round(x, d)
+	// (the one-argument form rounds half away from zero, so the sign must not matter), and round(x, 0) = round(x)
+	{name: "round", args: []string{"n", "k"}, ret: "n", laws: func(a []rv, out rv) string {
+		if a[0].k != 'n' || a[1].k != 'n' || out.k != 'n' || a[1].f < 0 || a[1].f > 6 || math.Abs(a[0].f) > 1e9 {
+			return ""
+		}
+		x, d := a[0].f, a[1].f
+		shift := math.Pow(10, d)
+		if math.Abs(out.f*shift-x*shift) > 0.5+1e-6 || math.Abs(out.f*shift-math.Round(out.f*shift)) > 1e-6 {
+			return fmt.Sprintf("round(%v, %v)=%v is not %v rounded at decimal %v", x, d, out.f, x, d)
+		}
+		fn, ok := functions.Get("round")
+		if !ok {
+			return ""
+		}
+		if neg, err := fn.Execute(&functions.FunctionContext{}, []any{-x, d}); err == nil {
+			if nf, ok := gen.ToFloat(neg); ok && math.Abs(nf+out.f) > 1e-9 {
+				return fmt.Sprintf("round(%v, %v)=%v but round(%v, %v)=%v: the sign changes the rounding", x, d, out.f, -x, d, nf)
+			}
+		}
+		if d == 0 {
+			if one, err := fn.Execute(&functions.FunctionContext{}, []any{x}); err == nil {
+				if of, ok := gen.ToFloat(one); ok && math.Abs(of-out.f) > 1e-9 {
+					return fmt.Sprintf("round(%v, 0)=%v but round(%v)=%v", x, out.f, x, of)
+				}
+			}
+		}
+		return ""
+	}},
 	// the guide documents log(base, number) and trunc(number, [precision])
 	{name: "log", args: []string{"g", "q"}, ret: "n", ref: num2(func(b, x float64) (float64, bool) { return math.Log(x) / math.Log(b), b > 0 && b != 1 && x > 0 }), nullStrict: true},
 	{name: "trunc", args: []string{"n"}, ret: "n", ref: num1(always(math.Trunc)), nullStrict: true},
